@@ -63,6 +63,12 @@ PROPS = {
         "trusted_base": ["DetectReader control flow hand-modelled; tie: scripted-reader ops (delivered count, error class, result vs Detect)"],
         "partial": ["reader_error: only the single failing Read is proved (read_at_error); the full statement 'error at offset k < header length => (errMIME, err) after exactly k bytes' is checked by correspondence + spec oracle only"],
     },
+    "C17": {
+        "slices": ["tree", "dets", "C17"],
+        "relevant_diff": anything,
+        "assumptions": COMMON_ASSUME + ["headers are shorter than 4 GiB (the limit is a uint32; with limit 0 inputs of 4 GiB or more are outside the theorem: CRX compares uint32(len))"],
+        "trusted_base": ["root-level signature checks: translated BExp (regenerated) or hand models of Tar, CRX, WebM, Mkv; tie: det ops on boundary inputs + limit-pair ops"],
+    },
     "C07": {
         "slices": ["tree", "C07", "corpus"],
         "relevant_diff": dets_only("Text"),
